@@ -50,6 +50,7 @@ type Case struct {
 	Class    string `json:"class,omitempty"`
 	Pin      string `json:"pin,omitempty"`
 	Cases    []*Case `json:"cases,omitempty"` // live-batch
+	Canon    string  `json:"canon,omitempty"` // funcs: the same definitions, one per line, no comments / continuations
 }
 
 // Known classes (see /verif/notes/C10.md).
@@ -303,20 +304,52 @@ func runLift(c *run.Ctx, cs *Case) bool {
 
 func runFuncs(c *run.Ctx, cs *Case) bool {
 	k := &checker{c: c, cs: cs, ok: true}
-	progs := []prog{{"body written inline, unoptimised", compile(stdBuilder(false), cs.Ref), cs.Ctxs}}
+	refU := compile(stdBuilder(false), cs.Ref)
+	refO := compile(stdBuilder(true), cs.Ref)
+	progs := []prog{{"body written inline, unoptimised", refU, cs.Ctxs}}
 	for _, cfg := range [][2]bool{{true, true}, {false, false}, {true, false}} {
 		kb, st, msg := funcsBuilder(cs.File, cfg[0], cfg[1])
+		var canon compiled
+		haveCanon := false
+		if cs.Canon != "" && cfg[0] == cfg[1] {
+			// the same definitions written one per line, without comments, blank
+			// lines or continuations: layout must not decide whether a file loads
+			// or whether a call compiles
+			ckb, cst, _ := funcsBuilder(cs.Canon, cfg[0], cfg[1])
+			if cst == stOK && st == stCompileErr {
+				c.Count("comparisons", 1)
+				k.fail(k.fp("funcs-load"), fmt.Sprintf("funcs file %s does not load (%s) although the same definitions written one per line do: %s",
+					run.Q(cs.File), msg, run.Q(cs.Canon)))
+				return false
+			}
+			if cst == stOK {
+				canon, haveCanon = compile(ckb, cs.Tpl), true
+			}
+		}
 		if st != stOK {
 			abstain(c, "abstain_funcs_load")
 			c.Note("funcs file did not load: " + msg)
 			return true
 		}
-		progs = append(progs, prog{fmt.Sprintf("call through the funcs file (file compiled optimise=%v, call optimise=%v)", cfg[0], cfg[1]), compile(kb, cs.Tpl), cs.Ctxs})
+		p := prog{fmt.Sprintf("call through the funcs file (file compiled optimise=%v, call optimise=%v)", cfg[0], cfg[1]), compile(kb, cs.Tpl), cs.Ctxs}
+		if haveCanon && canon.st == stOK && p.c.st == stCompileErr {
+			c.Count("comparisons", 1)
+			k.fail(k.fp("funcs-compile"), fmt.Sprintf("%s does not compile (%s) with funcs file %s although it does with the same definitions written one per line: %s",
+				run.Q(cs.Tpl), p.c.msg, run.Q(cs.File), run.Q(cs.Canon)))
+			return false
+		}
+		progs = append(progs, p)
+		if haveCanon && cfg[0] {
+			progs = append(progs, prog{"call through the one-definition-per-line file", canon, cs.Ctxs})
+		}
 	}
-	progs = append(progs, prog{"body written inline, optimised", compile(stdBuilder(true), cs.Ref), cs.Ctxs})
+	progs = append(progs, prog{"body written inline, optimised", refO, cs.Ctxs})
 	return runEquiv(c, k, "funcs", progs, "cmp_call_vs_inline", func(p *prog) string {
 		if strings.HasPrefix(p.name, "body written") {
 			return fmt.Sprintf("%s (%s)", run.Q(cs.Ref), p.name)
+		}
+		if strings.HasPrefix(p.name, "call through the one") {
+			return fmt.Sprintf("%s with funcs file %s", run.Q(cs.Tpl), run.Q(cs.Canon))
 		}
 		return fmt.Sprintf("%s with funcs file %s (%s)", run.Q(cs.Tpl), run.Q(cs.File), p.name)
 	})
@@ -495,6 +528,7 @@ func funcsCases(c *run.Ctx, forKeys bool) {
 		}
 		ctxs := genCtxs(r, false)
 		ncalls := r.Range(1, 3)
+		canon := canonical(fs)
 		if g.stateful {
 			// a cached time format inside a body is shared by every call site but
 			// private to every inlined copy: documented caching, not judged
@@ -519,7 +553,7 @@ func funcsCases(c *run.Ctx, forKeys bool) {
 				c.Count("discarded_unprintable", 1)
 				continue
 			}
-			cs := &Case{Kind: "funcs", Tpl: tpl, Ref: ref, File: file, Ctxs: ctxs, Stateful: g.stateful}
+			cs := &Case{Kind: "funcs", Tpl: tpl, Ref: ref, File: file, Ctxs: ctxs, Stateful: g.stateful, Canon: canon}
 			c.Begin(cs, 0)
 			c.Nontrivial("funcs", file, tpl)
 			c.Count("funcs_cases", 1)
@@ -535,6 +569,19 @@ func funcsCases(c *run.Ctx, forKeys bool) {
 			return
 		}
 	}
+}
+
+// canonical writes the definitions one per line ("" when one cannot be written).
+func canonical(fs []*ufunc) string {
+	var sb strings.Builder
+	for _, f := range fs {
+		b, ok := Print(f.Body)
+		if !ok {
+			return ""
+		}
+		sb.WriteString(f.Name + " " + b + "\n")
+	}
+	return sb.String()
 }
 
 // callSite: a template with at least one call of a funcs-file function.
